@@ -77,3 +77,34 @@ Proof.
   - intros y Hy. destruct (whole_forward_of_inverse c bx uw uh ud H1 H2 H3 H4 H5 H6 H7 H8 H9 H10 H11 y Hy) as [x [l [E _]]]. exists x, l. exact E.
 Qed.
 Print Assumptions C17_rq_whole_spline_accepts_its_box.
+
+(* the same for the whole piecewise-linear and piecewise-quadratic splines (both directions) and for the whole cubic spline's forward
+   direction: every input of the closed box is accepted with a real result - the bin lookup always lands on a valid bin - for every
+   configuration the code accepts and all parameters *)
+From NF Require Import Model.SplineLinear Model.SplineQuadratic Model.SplineCubic Proofs.SplineLinearWhole Proofs.SplineQuadWhole Proofs.SplineCubicWhole.
+Theorem C17_linear_quadratic_cubic_whole_splines_accept_their_box :
+  (forall (bx : @box R) (u : list R), u <> nil -> b_left bx < b_right bx -> b_bottom bx < b_top bx ->
+     (forall x, b_left bx <= x <= b_right bx -> exists y l, linear_spline Rops false bx u x = Ok (y, l)) /\
+     (forall y, b_bottom bx <= y <= b_top bx -> exists x l, linear_spline Rops true bx u y = Ok (x, l))) /\
+  (forall (minw minh : R) (bx : @box R) (uw uh : list R), uw <> nil ->
+     (length uh = S (length uw) \/ (length uh = (length uw - 1)%nat /\ (2 <= length uw)%nat)) ->
+     0 <= minw -> minw * INR (length uw) <= 1 -> 0 <= minh -> minh * INR (length uw) <= 1 ->
+     b_left bx < b_right bx -> b_bottom bx < b_top bx ->
+     (forall x, b_left bx <= x <= b_right bx -> exists y l, quadratic_spline Rops minw minh false bx uw uh x = Ok (y, l)) /\
+     (forall y, b_bottom bx <= y <= b_top bx -> exists x l, quadratic_spline Rops minw minh true bx uw uh y = Ok (x, l))) /\
+  (forall (minw minh eps thr : R) (bx : @box R) (uw uh : list R) (ul ur : R), uw <> nil -> length uh = length uw ->
+     0 <= minw -> minw * INR (length uw) <= 1 -> 0 <= minh -> minh * INR (length uw) <= 1 ->
+     b_left bx < b_right bx -> b_bottom bx < b_top bx ->
+     forall x, b_left bx <= x <= b_right bx -> exists y l, cubic_spline Rops minw minh eps thr false bx uw uh ul ur x = Ok (y, l)).
+Proof.
+  split; [|split].
+  - intros bx u H1 H2 H3. split.
+    + intros x Hx. destruct (linear_whole bx u H1 H2 H3) as [A _]. destruct (A x Hx) as [y [l [E _]]]. exists y, l. exact E.
+    + intros y Hy. destruct (linear_forward_of_inverse bx u H1 H2 H3 y Hy) as [x [l [E _]]]. exists x, l. exact E.
+  - intros minw minh bx uw uh H1 H2 H3 H4 H5 H6 H7 H8. split.
+    + intros x Hx. destruct (quadratic_whole minw minh bx uw uh H1 H2 H3 H4 H5 H6 H7 H8) as [A _]. destruct (A x Hx) as [y [l [E _]]]. exists y, l. exact E.
+    + intros y Hy. destruct (quadratic_forward_of_inverse minw minh bx uw uh H1 H2 H3 H4 H5 H6 H7 H8 y Hy) as [x [l [E _]]]. exists x, l. exact E.
+  - intros minw minh eps thr bx uw uh ul ur H1 H2 H3 H4 H5 H6 H7 H8 x Hx.
+    destruct (cubic_whole minw minh eps thr bx uw uh ul ur H1 H2 H3 H4 H5 H6 H7 H8) as [A _]. destruct (A x Hx) as [y [l [E _]]]. exists y, l. exact E.
+Qed.
+Print Assumptions C17_linear_quadratic_cubic_whole_splines_accept_their_box.
